@@ -1,7 +1,114 @@
-From Coq Require Import List QArith.
+(* C28 — property theorems only.  Model: PP.Model.C28 (transcription of segments_2d and
+   segments_3d over Q, tolerance tests with norms in squared form); proofs: PP.Proofs.C28,
+   PP.Proofs.C28_sqrt. *)
+From Coq Require Import List QArith Qabs ZArith Reals Lia.
 Import ListNotations.
-From PP Require Import Model.C28.
+From PP Require Import Model.C28 Proofs.C28 Proofs.C28_sqrt.
 Open Scope Q_scope.
-Theorem C28_placeholder : seg2d tol8 (0,0) (1,1) (0,1) (1,0) = R2Pt (1#2, 1#2).
-Proof. vm_compute. reflexivity. Qed.
-Print Assumptions C28_placeholder.
+
+(* 2-D, full strength: for all integer endpoints with |coordinate| <= 1000 (inbox), both
+   segments of non-zero length, tol = 1e-8: segments_2d does not raise and its result is
+   exactly seg(a,b) ∩ seg(c,d) —
+     None         iff no point lies on both segments,
+     one column q iff the common points are exactly q,
+     two columns  iff they are distinct and the common points are exactly seg(q1,q2). *)
+Theorem C28_2d_correct :
+  forall ax ay bx by_ cx cy dx dy : Z,
+    inbox ax -> inbox ay -> inbox bx -> inbox by_ ->
+    inbox cx -> inbox cy -> inbox dx -> inbox dy ->
+    (ax, ay) <> (bx, by_) -> (cx, cy) <> (dx, dy) ->
+    correct2 (zpt ax ay) (zpt bx by_) (zpt cx cy) (zpt dx dy)
+             (seg2d tol8 (zpt ax ay) (zpt bx by_) (zpt cx cy) (zpt dx dy)).
+Proof. exact seg2d_correct_int. Qed.
+Print Assumptions C28_2d_correct.
+
+(* 2-D, arbitrary rational endpoints and any tol >= 0: the same conclusion whenever the
+   input is away from the tolerance bands, i.e. the decidable guard [separated] holds
+   (each tolerance test the code evaluates answers like its exact counterpart). *)
+Theorem C28_2d_correct_separated :
+  forall (tol : Q) (a b c d : pt2),
+    0 <= tol -> ~ peq a b -> ~ peq c d -> separated tol a b c d = true ->
+    correct2 a b c d (seg2d tol a b c d).
+Proof. exact seg2d_correct_separated. Qed.
+Print Assumptions C28_2d_correct_separated.
+
+(* 2-D: independence of argument order (swap the segments, reverse either segment):
+   same classification and the same point set. *)
+Theorem C28_2d_symmetric :
+  forall ax ay bx by_ cx cy dx dy : Z,
+    inbox ax -> inbox ay -> inbox bx -> inbox by_ ->
+    inbox cx -> inbox cy -> inbox dx -> inbox dy ->
+    (ax, ay) <> (bx, by_) -> (cx, cy) <> (dx, dy) ->
+    let A := zpt ax ay in let B := zpt bx by_ in let C := zpt cx cy in let D := zpt dx dy in
+    same_set (seg2d tol8 A B C D) (seg2d tol8 C D A B) /\
+    same_set (seg2d tol8 A B C D) (seg2d tol8 B A C D) /\
+    same_set (seg2d tol8 A B C D) (seg2d tol8 A B D C).
+Proof. exact seg2d_symmetric_int. Qed.
+Print Assumptions C28_2d_symmetric.
+
+(* The squared tolerance tests of the model are the sqrt tests of the code (over R). *)
+Theorem C28_squared_tests_equiv :
+  (forall tol discr n1 n2 : R, (0 <= tol -> 0 <= n1 -> 0 <= n2 ->
+     (Rabs discr < tol * sqrt n1 * sqrt n2 <-> discr * discr < tol * tol * (n1 * n2)))%R) /\
+  (forall tol x n1 n2 : R, (0 <= tol -> 0 <= n1 -> 0 <= n2 ->
+     (Rabs x < tol * Rmax (sqrt n1) (sqrt n2) <-> x * x < tol * tol * Rmax n1 n2))%R) /\
+  (forall tol x n : R, (0 <= tol -> 0 <= n ->
+     (Rabs x > tol * sqrt n <-> x * x > tol * tol * n))%R).
+Proof.
+  split; [exact parallel_test_squared|split; [exact colinear_test_squared|exact axis_test_squared]].
+Qed.
+Print Assumptions C28_squared_tests_equiv.
+
+(* 3-D: the full statement is FALSE of the faithful model (= of the code, see the tie):
+   (1) non-parallel lines whose projection on the axes picked from the non-zero deltas is
+       degenerate are reported as not intersecting: (0,0,0)-(2,2,0) x (0,0,-1)-(2,2,1);
+   (2) colinear segments sharing one point come back as two identical columns. *)
+Theorem C28_3d_correct_refuted :
+  (exists a b c d, ~ peq3 a b /\ ~ peq3 c d /\ seg3d tol8 a b c d = R3None /\
+                   ~ correct3 a b c d (seg3d tol8 a b c d)) /\
+  (exists a b c d q, ~ peq3 a b /\ ~ peq3 c d /\ seg3d tol8 a b c d = R3Cols [q; q] /\
+                   ~ correct3 a b c d (seg3d tol8 a b c d)).
+Proof. exact seg3d_correct_refuted. Qed.
+Print Assumptions C28_3d_correct_refuted.
+
+(* 3-D, what is proved instead (partial: soundness of a reported point only; completeness
+   and the classification of overlaps are not provable, see the refutation; missing for a
+   guarded full theorem: a 3-D analogue of [separated] excluding degenerate projections,
+   and the correctness proof of the parallel branch):  for all rational endpoints and any
+   tol > 0, if segments_3d returns a single point q then q lies on segment 1 and within
+   tol (max-norm) of a point of segment 2. *)
+Theorem C28_3d_point_sound_partial :
+  forall tol a0 a1 a2 b0 b1 b2 c0 c1 c2 d0 d1 d2 q,
+    0 < tol ->
+    seg3d tol [a0; a1; a2] [b0; b1; b2] [c0; c1; c2] [d0; d1; d2] = R3Cols [q] ->
+    on_seg3 q [a0; a1; a2] [b0; b1; b2] /\
+    exists q', on_seg3 q' [c0; c1; c2] [d0; d1; d2] /\
+               forall i, (i < 3)%nat -> Qabs (c3 q i - c3 q' i) < tol.
+Proof. exact seg3d_point_sound. Qed.
+Print Assumptions C28_3d_point_sound_partial.
+
+(* Non-vacuity: concrete instances of the hypotheses, with the results. *)
+Example C28_nonvacuous_2d :
+  inbox 0 /\ inbox 4 /\ (0, 0)%Z <> (4, 4)%Z /\ (0, 4)%Z <> (4, 0)%Z /\
+  agree2 (R2Pt (2, 2)) (seg2d tol8 (zpt 0 0) (zpt 4 4) (zpt 0 4) (zpt 4 0)) = true /\
+  agree2 (R2Seg (2, 2) (4, 4)) (seg2d tol8 (zpt 0 0) (zpt 4 4) (zpt 2 2) (zpt 6 6)) = true /\
+  agree2 (R2Pt (4, 4)) (seg2d tol8 (zpt 0 0) (zpt 4 4) (zpt 4 4) (zpt 6 6)) = true /\
+  seg2d tol8 (zpt 0 0) (zpt 4 4) (zpt 1 0) (zpt 5 4) = R2None.
+Proof.
+  unfold inbox. repeat split; try lia; try discriminate; vm_compute; reflexivity.
+Qed.
+
+Example C28_nonvacuous_separated :
+  separated tol8 (1 # 2, 0) (3 # 2, 1) (0, 1 # 3) (2, 1 # 3) = true /\
+  ~ peq (1 # 2, 0) (3 # 2, 1) /\ ~ peq (0, 1 # 3) (2, 1 # 3) /\
+  agree2 (R2Pt (5 # 6, 1 # 3)) (seg2d tol8 (1 # 2, 0) (3 # 2, 1) (0, 1 # 3) (2, 1 # 3)) = true.
+Proof.
+  split; [vm_compute; reflexivity|]. split; [|split].
+  - intros [E _]. vm_compute in E. discriminate.
+  - intros [E _]. vm_compute in E. discriminate.
+  - vm_compute. reflexivity.
+Qed.
+
+Example C28_nonvacuous_3d :
+  seg3d tol8 [1; 0; 1] [1; 1; -1] [0; 0; 1] [4; 3; -5] = R3Cols [[4 # 4; 3 # 4; -2 # 4]].
+Proof. exact seg3d_point_example. Qed.
